@@ -154,9 +154,15 @@ def sign_events(args):
     rfc6979.generate_k = rec_gen
     try:
         for d in ds:
-            sk = SigningKey.from_secret_exponent(d, curve, hashfunc=IdHash)
-            vk0 = sk.get_verifying_key()
-            pub = pub_of(vk0, curve)
+            try:
+                sk = SigningKey.from_secret_exponent(d, curve, hashfunc=IdHash)
+                vk0 = sk.get_verifying_key()
+                pub = pub_of(vk0, curve)
+            except BaseException as e:  # noqa  (e.g. an earlier operation damaged shared state of the curve)
+                events.append({"op": "sign", "d": d, "k": ks[0], "digest": b2l(digests[0]), "allow": allows[0], "pub": [-1, -1],
+                               "outs": [{"kind": "key-construction-raised-" + exc_name(e), "r": 0, "s": 0}], "couts": [],
+                               "checks": ["constructing the key pair of the valid private scalar %d raised %s" % (d, exc_name(e))]})
+                continue
             rp = reload_paths(ecdsa, curve, sk, full)
             vks = {}
             for name, f in rp.items():
